@@ -7,7 +7,10 @@ Implementation-level oracle (model-free), on real subprocess runs of bin/dippy-h
   * every answer validates against the answering host's key / vocabulary schema;
   * the answering mode is: explicit flag or DIPPY_* variable first (claude > gemini > cursor), else
     the input shape - over all flag subsets and DIPPY_* values;
-  * forcing a mode never changes the verdict the same input gets without flags.
+  * forcing a mode never changes the verdict the same input gets without flags;
+  * the working directory is the payload's top-level cwd, else tool_input.cwd, else the process's own -
+    under every forced mode and auto, for all three shapes: the process runs in a project whose .dippy
+    denies the probe while the payload's directories allow / ask it, so the verdict shows which was used.
 Correspondence: Model/Hook.v main == the real process on all those runs; detect_mode_from_input ==
 dippy.dippy._detect_mode_from_input over the JSON type grid; Hook.decode / Hook.conforms == the
 Python host readers on the real outputs."""
@@ -35,6 +38,9 @@ TRUSTED = [
 CFG = 'deny zap "NOZAP"\nallow okcmd\nallow-mcp mcp__ok__*\ndeny-mcp mcp__ok__bad "no"\nask-mcp mcp__q__* "sure?"\n'
 COMMANDS = ["ls", "echo hi", "pwd", "git status", "rm x", "git push", "frobnicate a", "zap it", "okcmd", "echo $(", "",
             "ls | zap 1", "cat f > /tmp/x", "ls \ud800", "echo 'é🐤'"]
+P_PROC = 'deny probecmd "PROC"\n'     # the .dippy of the project the hook process runs in
+P_PAY = 'allow probecmd\n'            # ... of the project the payload's cwd points at
+P_PAY2 = 'ask probecmd "PAY2"\n'      # ... of a second payload project
 ENV_VALUES = [None, "1", "true", "yes", "0", "junk", "TRUE", "Yes", "", " 1"]
 FLAG_SUBSETS = [tuple(s) for n in range(4) for s in itertools.combinations(("--claude", "--gemini", "--cursor"), n)]
 
@@ -98,6 +104,29 @@ def build_cases(sc, tier, rng):
     for tn in ("mcp__ok__x", "mcp__ok__bad", "mcp__q__y", "mcp__none", "Read"):
         for flags in ((), ("--claude",), ("--gemini",), ("--cursor",)):
             singles.append(mk({"tool_name": tn, "tool_input": {}, "cwd": wd}, label="mode:mcp", flags=flags))
+    # 4. where the working directory comes from: top-level cwd, else tool_input.cwd, else the process's own -
+    #    never the mode.  The process runs under a project whose .dippy DENIES the probe; the payload points at
+    #    projects whose .dippy allow / ask it, so the verdict tells which directory was used.
+    pay, pay2 = sc.proj(P_PAY), sc.proj(P_PAY2)
+    placements = {   # name -> (top-level cwd or MISSING, tool_input.cwd or MISSING, expected verdict)
+        "top": (pay, g.MISSING, "allow"), "tool_input-only": (g.MISSING, pay, "allow"), "both-different": (pay, pay2, "allow"),
+        "top-empty+tool_input": ("", pay2, "ask"), "top-null+tool_input": (None, pay, "allow"), "absent": (g.MISSING, g.MISSING, "deny"),
+    }
+    forced = [((), {}), (("--claude",), {}), (("--gemini",), {}), (("--cursor",), {}), ((), {"DIPPY_CURSOR": "1"}),
+              ((), {"DIPPY_CLAUDE": "1"}), ((), {"DIPPY_GEMINI": "true"})]
+    for pname, (top, ti, want) in placements.items():
+        grp = []
+        for shape in g.SHAPES:
+            d = g.base_input(shape, "probecmd x", "unused")
+            d = g.set_path(d, ("cwd",), top)
+            if ti is not g.MISSING:
+                d = g.set_path(d, ("tool_input", "cwd"), ti)
+            for flags, env in forced:
+                c = H.Case(g.dumps(d), label=f"cwd:{pname}:{shape}", flags=flags, env=env, user_cfg=None, proj_cfg=P_PROC)
+                c.want_verdict = want
+                singles.append(c)
+                grp.append(c)
+        groups.append((f"cwd placement {pname}", grp))
     return groups, singles
 
 
@@ -141,7 +170,7 @@ def run(tier, seed, replay=None):
         baseline = {}   # (stdin, configs) -> verdict without flags
         for c in allc:
             if not c.flags and not c.env:
-                baseline[(c.data, c.user_cfg, c.env_cfg)] = verdict_of(c)[1:] if verdict_of(c)[0] in H.MODES else verdict_of(c)
+                baseline[(c.data, c.user_cfg, c.proj_cfg, c.env_cfg)] = verdict_of(c)[1:] if verdict_of(c)[0] in H.MODES else verdict_of(c)
         for idx, c in enumerate(allc):
             out.case(c.key(), nontrivial=bool(c.flags or c.env) or c.label.startswith("same"))
             out.count("stream", c.label.split(":")[0] + ":" + c.label.split(":")[1])
@@ -169,9 +198,15 @@ def run(tier, seed, replay=None):
                 if dm != [[v[1], v[2]]] or (cm == "1") != (not errs):
                     out.disagreements.append({"correspondence": "Hook.decode/conforms <-> host readers", "model": [dm, cm],
                                               "impl": [v, errs], **H.describe(c, sc)})
+            if getattr(c, "want_verdict", None) is not None:
+                got = v[1] if v[0] in H.MODES else v[0]
+                out.count("cwd_placement", c.label.split(":")[1] + "->" + str(got))
+                if got != c.want_verdict:
+                    bad(f"working directory: expected the verdict {c.want_verdict} (cwd = top-level, else tool_input.cwd, else the "
+                        f"process's own - whatever the mode), got {v} under flags {c.flags} env {c.env}", "cwd-depends-on-mode", c)
             # mode selection never influences the verdict: compare with the same stdin without flags / env
-            if (c.flags or c.env) and (c.data, c.user_cfg, c.env_cfg) in baseline:
-                base = baseline[(c.data, c.user_cfg, c.env_cfg)]
+            if (c.flags or c.env) and (c.data, c.user_cfg, c.proj_cfg, c.env_cfg) in baseline:
+                base = baseline[(c.data, c.user_cfg, c.proj_cfg, c.env_cfg)]
                 mine = v[1:] if v[0] in H.MODES else v
                 if mine != base:
                     shape_mode = H.expected_mode(H.Case(c.data), value)
@@ -224,7 +259,9 @@ def run(tier, seed, replay=None):
         "parse error, empty, pipeline, redirect, surrogate, non-ASCII) + bypass / config-error / PostToolUse / non-str command / cwd "
         "variants, each submitted in the Claude, Cursor and Gemini (all 4 aliases) shapes, auto-detected, with the host's flag and with "
         "its DIPPY_* variable; singles: 8 flag subsets x 3 shapes, 9 values of each DIPPY_* variable x 3 shapes, random full "
-        "combinations of flags x 3 variables x 10 values, MCP / other tools under each flag. distinct = distinct (stdin, flags, env, "
+        "combinations of flags x 3 variables x 10 values, MCP / other tools under each flag; cwd placement (top level / only in tool_input / "
+        "both, different / empty or null top + tool_input / absent) x 3 shapes x {auto, 3 flags, 3 variables} with per-directory project "
+        "configs that make the verdict depend on the directory used. distinct = distinct (stdin, flags, env, "
         "config); non-trivial = a group member or a run with a flag / variable set")
     return out
 
